@@ -53,7 +53,10 @@ Print Assumptions C16_incoming.
 Definition C16_outgoing_statement : Prop :=
   forall evs : list Outgoing.ev,
     OutgoingSpec.injective_supply evs -> OutgoingSpec.disjoint_directions evs ->
-    OutgoingSpec.valid_results evs -> OutgoingSpec.lsp_codes evs -> OutgoingSpec.all_answered evs ->
+    OutgoingSpec.valid_results evs -> OutgoingSpec.lsp_codes evs ->
+    (* a caller-cancelled request answered with a result that does not validate leaks its entry
+       (DESIGN section 6 row 26, outside "valid results"): every result must validate *)
+    OutgoingSpec.strict_valid_results evs -> OutgoingSpec.all_answered evs ->
     Outgoing.rtypes (Outgoing.run evs) = nil /\
     (forall i k, AssocOut.aget Outgoing.id_eqb i (Outgoing.futs (Outgoing.run evs)) <> Some (Outgoing.FOut k)) /\
     (OutgoingSpec.no_in_async evs = true -> Outgoing.futs (Outgoing.run evs) = nil).
